@@ -179,7 +179,9 @@ def walk (viaHandler : Bool) : List Step → List String → St → Ghost → Na
   | st :: l, impls, s, g, k, outs, verdict =>
     let r := step codeAutoMat s st
     let s' := r.1
-    let o := if viaHandler && isAck r.2 then "." else outStr r.2
+    -- the convergence side condition of `safeRec`, observed on every visited state: an evaluation that ran
+    -- out of fuel would show up as a model/code disagreement
+    let o := (if viaHandler && isAck r.2 then "." else outStr r.2) ++ (if convState s' then "" else "!fuel")
     let (impl, impls') := match impls with | i :: is => (i, is) | [] => ("", [])
     let g1 := updCauses g s s' st k
     let g2 : Ghost := match st with
